@@ -174,12 +174,14 @@ SortedCons(X) == IF X = {} THEN <<>>
                  ELSE LET e == CHOOSE x \in X : \A y \in X : x.idx < y.idx \/ (x.idx = y.idx /\ (x.sp = "U" \/ y.sp = "l"))
                       IN <<e.k>> \o SortedCons(X \ {e})
 RoundApprovers(s) == LET c == SortedCons(ConsEntries(s)) IN SubSeq(c, 1, Ceil2of3(Len(c)))
+\* result of a round: "hit" if one of its approvals applied the request, else "ok" if one was accepted, else "err"
 RECURSIVE RoundFold(_, _, _, _, _)
-RoundFold(s, a, seq, i, hit) ==
-    IF i > Len(seq) THEN Res(IF hit THEN "hit" ELSE "ok", s)
+RoundFold(s, a, seq, i, best) ==
+    IF i > Len(seq) THEN Res(best, s)
     ELSE LET x == Approve1(s, a, seq[i])
-         IN IF x.r = "panic" THEN Res("panic", x.s) ELSE RoundFold(x.s, a, seq, i + 1, hit \/ x.r = "hit")
-DoRound(s, a) == RoundFold(s, a, RoundApprovers(s), 1, FALSE)
+         IN IF x.r = "panic" THEN Res("panic", x.s)
+            ELSE RoundFold(x.s, a, seq, i + 1, IF x.r = "hit" \/ best = "hit" THEN "hit" ELSE IF x.r = "ok" THEN "ok" ELSE best)
+DoRound(s, a) == RoundFold(s, a, RoundApprovers(s), 1, "err")
 
 (* ---------------------------------------------------------- side_chain_manager requests *)
 Rec(a) == [id |-> a.id, own |-> a.own, ver |-> a.ver]
